@@ -549,6 +549,26 @@ def run_arrays(res):
             res.outcomes["arrays-ok" if not bad else "arrays-WRONG"] += 1
             if bad:
                 res.violation("C15|%s|order" % bad[0][0], "per-substance conversion %r on substances %r with %r" % (bad, subs, d), dict(layer="A", seq=list(seq), subs="".join(subs), vals=list(vals)), bad, None)
+        # containers of the wrong length are refused (ValueError), whatever their type: they cannot be converted "in substance order"
+        ns = len(subs)
+        for n in (ns - 1, ns + 1):
+            for tname, make in (("list", list), ("tuple", tuple), ("ndarray-int", lambda v: np.array(v)), ("ndarray-float64", lambda v: np.array(v, dtype=np.float64)),
+                                ("ndarray-float32", lambda v: np.array(v, dtype=np.float32))):
+                res.states += 1
+                res.transitions += 1
+                res.evaluations += 1
+                res.nontrivial += 1
+                vals = [2, 3, 5, 7, 11, 13, 17][:n]
+                try:
+                    got = "accepted: %r" % (list(rs.as_per_substance_array(make(vals))),)
+                except ValueError:
+                    got = "ValueError"
+                except Exception as e:
+                    got = "EXC %s" % type(e).__name__
+                res.outcomes["arrays-wrong-length:%s" % ("refused" if got == "ValueError" else "NOT-REFUSED")] += 1
+                if got != "ValueError":
+                    res.violation("C15|as_per_substance_array|wrong-length-accepted", "as_per_substance_array(%s of length %d) on %d substances %r: %s" % (tname, n, ns, subs, got),
+                                  dict(layer="A", seq=list(seq), subs="".join(subs), vals=None, wrong=[tname, n]), got, "ValueError")
     res.sample(dict(layer="A", example="as_per_substance_array({'A': 2, ...}) in substance order 'GFECBA'"))
 
 
